@@ -1147,6 +1147,10 @@ class Sim:
                 r = self.call_closure(clo, list(tup.fields), fn, env, bb, t, path, depth, cont)
                 if r is not None:
                     return r
+        if self.structural_vec and "resolved" not in t["callee"] or self.structural_vec and t["callee"].get("resolved_crate") in ("core", "alloc", "std"):
+            r = self._iter_calls(fn, env, bb, t, args, names, path, depth, cont)
+            if r is not None:
+                return r
         # next() on a std adaptor that _skip resolved to the advanced local iterator itself
         if "std::iter::Iterator::next" in names and len(args) == 1:
             st = (t["callee"].get("substs") or [""])[0]
@@ -1184,8 +1188,62 @@ class Sim:
                 if isinstance(tup, Tup):
                     cargs = [args[0]] + list(tup.fields)
             return self._inline(fn, env, bb, t, path, depth, callee_fn, cargs, cont)
+        # an unmodelled call that may write through a `&mut` to a structural vector: its contents are unknown now
+        for i, a in enumerate(args):
+            tys = t.get("arg_tys") or []
+            if isinstance(a, Ref) and (i >= len(tys) or tys[i].startswith("&mut ")):
+                v = self._deref(a, path)
+                if isinstance(v, Adt) and v.adt == "sim::Vec":
+                    v.fields[0] = Tup([UNK])
         path.events.append(ev)
         return [cont(UNK)]
+
+    def _iter_calls(self, fn, env, bb, t, args, names, path, depth, cont):
+        """Lazy adaptors and consumers over iterators the simulator can follow (see _iter_next)."""
+        d0 = self._deref(args[0], path) if args else None
+        if "std::iter::Iterator::map" in names and len(args) == 2 and self._followable(d0) \
+                and isinstance(args[1], (Closure, FnItem)):
+            return [cont(Adt("sim::Map", 0, [Ref([d0], 0, ()), args[1]]))]
+        if "std::iter::Iterator::next" in names and len(args) == 1 and isinstance(d0, Adt) and d0.adt == "sim::Map" \
+                and isinstance(args[0], Ref):
+            def got(rv, sp, e, tr):
+                return [cont(rv if rv is not None else UNK, sp, e)]
+            return self._iter_next(fn, env, bb, t, path, depth, args[0], got)
+        consumer = None
+        if "std::iter::Extend::extend" in names and len(args) == 2:
+            v = d0
+            src = self._deref(args[1], path)
+            if isinstance(v, Adt) and v.adt == "sim::Vec":
+                if isinstance(src, Adt) and src.adt == "sim::Vec":
+                    v.fields[0].fields.extend(src.fields[0].fields)
+                    return [cont(Tup([]))]
+                if self._followable(src):
+                    consumer = ("extend", args[0], Ref([src], 0, ()))
+        elif "std::iter::Iterator::collect" in names and len(args) == 1 and self._followable(d0) \
+                and (t["callee"].get("substs") or ["", ""])[-1].startswith("std::vec::Vec<"):
+            consumer = ("collect", None, Ref([d0], 0, ()))
+        elif "std::iter::Iterator::count" in names and len(args) == 1 and self._followable(d0):
+            consumer = ("count", None, Ref([d0], 0, ()))
+        if consumer is None:
+            return None
+        kind, vecref, itref = consumer
+
+        def done(items, sp, e, tr):
+            if items is None:
+                if kind == "extend":
+                    vv = self._deref(tr(vecref), sp)
+                    if isinstance(vv, Adt) and vv.adt == "sim::Vec":
+                        vv.fields[0] = Tup([UNK])
+                return [cont(UNK if kind != "extend" else Tup([]), sp, e)]
+            if kind == "extend":
+                vv = self._deref(tr(vecref), sp)
+                if isinstance(vv, Adt) and vv.adt == "sim::Vec":
+                    vv.fields[0].fields.extend(items)
+                return [cont(Tup([]), sp, e)]
+            if kind == "collect":
+                return [cont(Adt("sim::Vec", 0, [Tup(list(items))]), sp, e)]
+            return [cont(len(items), sp, e)]
+        return self._drain(fn, env, bb, t, path, depth, itref, [], done)
 
     def _inline(self, fn, env, bb, t, path, depth, callee_fn, args, cont):
         path.events.append(("enter", callee_fn.path, fn.path, bb))
@@ -1434,6 +1492,64 @@ class Sim:
             return self._nth(fn, e, bb, t, sp, depth, cont, tr(itref), next_fn, n - 1)
 
         return self._inline_multi(fn, env, bb, t, path, depth, next_fn, [itref], after_next)
+
+    def _iter_next(self, fn, env, bb, t, path, depth, itref, contm):
+        """One step of an iterator the simulator can follow, held behind the reference `itref`: a known slice / array
+        iterator, an integer range, an iterator type of the analysed crates (its own `next` runs as MIR), or a
+        `map` adaptor over one of these (`sim::Map`).  contm(item_option_or_None, path, env, translate) -> outs;
+        None means the iterator is not one of these."""
+        it = self._deref(itref, path)
+        if not isinstance(it, Adt):
+            return contm(None, path, env, lambda v: v)
+        if it.adt == "sim::SliceIter":
+            seq, i = it.fields[0], it.fields[1]
+            elems = seq.b if isinstance(seq, Bytes) else seq.fields
+            if i < len(elems):
+                it.fields[1] = i + 1
+                item = elems[i] if len(it.fields) > 2 else Ref([elems[i]], 0, ())
+                return contm(Adt("std::option::Option", 1, [item]), path, env, lambda v: v)
+            return contm(Adt("std::option::Option", 0, []), path, env, lambda v: v)
+        if it.adt == "sim::Map":
+            inner_cell, f = it.fields[0], it.fields[1]
+
+            def after_inner(rv, sp, e, tr):
+                if not isinstance(rv, Adt):
+                    return contm(None, sp, e, tr)
+                if rv.variant == 0:
+                    return contm(rv, sp, e, tr)
+                f2 = tr(f)
+                ff = self.find_fn(f2.path) if isinstance(f2, (Closure, FnItem)) else None
+                if ff is None or depth >= self.max_depth:
+                    return contm(Adt("std::option::Option", 1, [UNK]), sp, e, tr)
+
+                def after_f(r2, sp2, e2, tr2):
+                    return contm(Adt("std::option::Option", 1, [r2]), sp2, e2, lambda v: tr2(tr(v)))
+                cargs = [f2, rv.fields[0]] if isinstance(f2, Closure) else [rv.fields[0]]
+                return self._inline_multi(fn, e, bb, t, sp, depth, ff, cargs, after_f)
+            return self._iter_next(fn, env, bb, t, path, depth, inner_cell, after_inner)
+        nf = self._local_next(it.adt)
+        if nf is not None and depth < self.max_depth:
+            return self._inline_multi(fn, env, bb, t, path, depth, nf, [itref], contm)
+        return contm(None, path, env, lambda v: v)
+
+    def _drain(self, fn, env, bb, t, path, depth, itref, acc, done, k=0):
+        """Pull items until the iterator ends (at most 32): done(list_of_items_or_None, path, env, translate) -> outs."""
+        if k > 32:
+            return done(None, path, env, lambda v: v)
+
+        def step(rv, sp, e, tr):
+            acc2 = [tr(x) for x in acc]
+            if rv is None or not isinstance(rv, Adt):
+                return done(None, sp, e, tr)
+            if rv.variant == 0:
+                return done(acc2, sp, e, tr)
+            def done2(items, sp2, e2, tr2):
+                return done(items, sp2, e2, lambda v: tr2(tr(v)))
+            return self._drain(fn, e, bb, t, sp, depth, tr(itref), acc2 + [rv.fields[0]], done2, k + 1)
+        return self._iter_next(fn, env, bb, t, path, depth, itref, step)
+
+    def _followable(self, v):
+        return isinstance(v, Adt) and (v.adt in ("sim::SliceIter", "sim::Map") or self._local_next(v.adt) is not None)
 
     def _local_next(self, self_ty):
         """The local `Iterator::next` implementation for an iterator type, if any."""
